@@ -216,6 +216,63 @@ func checkC17(w *World, r *Report) {
 				}
 				r.Check(found != nil && appendIn != nil && MustPass(lf, boolValueEdges(lf, found, true), appendIn.Block()) && effDominates(*lookupE, s), "C17.split", "trace appended only when the sender is traced", w.Pos(s.Site.Instr.Pos()), "dominated by found==true", "a trace is appended for a sender that is not traced (or not appended when it is)")
 			}
+			if lookupE != nil {
+				// the converse: a split that succeeds has looked the sender up, and recorded the recipient when the sender is
+				// traced - no return that may report success is reachable without the lookup, and none from the found==true
+				// edge without the append
+				top := lookupE.Top()
+				missed := ""
+				for _, ret := range Returns(split) {
+					rv := retVals(ret)
+					if len(rv) > 0 && isErrorType(rv[len(rv)-1].Type()) && nonNilAt(rv[len(rv)-1], ret.Block(), 0) {
+						continue
+					}
+					if !(top.Block() == ret.Block() || top.Block().Dominates(ret.Block())) {
+						missed = w.Pos(ret.Pos())
+					}
+				}
+				r.Check(missed == "", "C17.split", "every split that may succeed has looked up the sender's trace", w.Pos(top.Pos()), "the lookup dominates every return whose error may be nil", "the split can report success without having looked up (and inherited) the sender's lineage: return at "+missed+" - the recipient of a genesis-derived sender stays unrecorded")
+				lf := lookupE.Site.Caller
+				var appendIn ssa.Instruction
+				if s.Site.Caller == lf {
+					appendIn = s.Site.Instr
+				} else {
+					for _, c := range s.Chain {
+						if c.Caller == lf {
+							appendIn = c.Instr
+						}
+					}
+				}
+				lookup, _ := lookupE.Site.Instr.(*ssa.Call)
+				var found ssa.Value
+				if lookup != nil {
+					for _, ref := range *lookup.Referrers() {
+						if ex, ok := ref.(*ssa.Extract); ok && ex.Index == 1 {
+							found = ex
+						}
+					}
+				}
+				if found != nil && appendIn != nil {
+					skipped := ""
+					for _, e := range boolValueEdges(lf, found, true) {
+						seen := map[*ssa.BasicBlock]bool{}
+						stack := []*ssa.BasicBlock{e.To()}
+						for len(stack) > 0 {
+							b := stack[len(stack)-1]
+							stack = stack[:len(stack)-1]
+							if seen[b] || b == appendIn.Block() {
+								continue
+							}
+							seen[b] = true
+							if ret, isRet := b.Instrs[len(b.Instrs)-1].(*ssa.Return); isRet && !FailsFrom(b) {
+								skipped = w.Pos(ret.Pos())
+							}
+							stack = append(stack, b.Succs...)
+						}
+					}
+					r.Check(skipped == "", "C17.split", "a traced sender's recipient is always recorded", w.Pos(appendIn.Pos()), "from the found==true edge every completing path passes the append", "after the sender was found to be traced the operation can complete without recording the recipient (return at "+skipped+")")
+				}
+			}
 			r.Check(tf["FromGenesisPool"] != nil && loadOfField(tf["FromGenesisPool"], "FromGenesisPool", nil), "C17.split", "trace.FromGenesisPool = sender.FromGenesisPool", w.Pos(s.Site.Instr.Pos()), "inherited", "FromGenesisPool is not inherited from the sender")
 			r.Check(isFalse(tf["Genesis"]), "C17.split", "trace.Genesis = false", w.Pos(s.Site.Instr.Pos()), "constant false", "a split recipient is marked as a genesis account")
 			if tf["FromGenesisAccount"] == nil {
